@@ -178,7 +178,7 @@ def run(ctx):
             ctx.violation("C20|fit|%s|non-finite" % tag, "accepted dirty input yields non-finite values",
                           {"case": tag, "fitted_finite": bool(np.all(np.isfinite(f))), "pred_finite": bool(np.all(np.isfinite(q)))})
     D = mellon.DensityEstimator
-    some = base.copy(); some[3] = some[2]; some[7] = some[2]
+    some = np.random.default_rng(0).normal(size=(n, 2)); some[3] = some[2]; some[7] = some[2]
     many = base.copy(); many[: n // 2] = many[0]
     finite_fit("duplicates-some", D, some)
     finite_fit("duplicates-many", D, many)
@@ -194,8 +194,8 @@ def run(ctx):
     dirty_nn = np.abs(nrng.normal(size=n)) + 0.1
     dirty_nn[[0, 3, 5, 9]] = [np.nan, np.inf, 0.0, -2.0]
     finite_fit("dirty-nn_distances", D, base, nn_distances=dirty_nn)
+    finite_fit("dim-duplicates", mellon.DimensionalityEstimator, some, k=5)       # known finding (see known_findings.jsonl)
     if ctx.thorough:
-        finite_fit("dim-duplicates", mellon.DimensionalityEstimator, some, k=5)
         Xt = np.concatenate([some, np.repeat([0.0, 1.0], n // 2)[:, None]], axis=1)
         finite_fit("time-duplicates", mellon.TimeSensitiveDensityEstimator, Xt)
     refusals = [
